@@ -5,7 +5,7 @@ ID="$1"; BASE="$2"; W="/tmp/agents/$ID/verif"; B="/tmp/agents/$ID/base"
 [ -d "$W" ] || { echo "no $W"; exit 2; }
 rm -rf "$B"; mkdir -p "$B"; git -C /verif archive "$BASE" | tar xf - -C "$B"
 cd /tmp/agents/$ID
-diff -ruN -x .lake -x evidence -x replays -x __pycache__ -x seeded -x probes -x Generated -x All.lean -x '*.pyc' -x base -x repo base verif > "/tmp/agents/$ID/changes.patch"
+diff -ruN -x .lake -x evidence -x replays -x __pycache__ -x seeded -x seeded_retired -x probes -x Generated -x All.lean -x '*.pyc' -x base -x repo base verif > "/tmp/agents/$ID/changes.patch"
 grep '^diff -ruN' "/tmp/agents/$ID/changes.patch" | awk '{print $NF}'
 if [ "$3" = "apply" ]; then cd /verif && patch -p1 < "/tmp/agents/$ID/changes.patch"; fi
 rm -rf "$B"
